@@ -256,7 +256,12 @@ theorem sim_step {μ : Type} {M : Sem μ} {cfg : Cfg} {S out : List Instr} {cs :
         have := win_lookup hb _ v' hv'
         rw [List.reverse_reverse] at this
         rw [this]; rfl
-      obtain ⟨u', hrun, hmem, hregs⟩ := C.hE x info _ _ _ s u s' hi hgi hex hknow hall hR.mem
+      have hused : ∀ r ∈ topRegs x, r ∈ ([] : List Reg) ++ (S.take (pc + 1)).flatMap topRegs := by
+        intro r hr
+        rw [take_succ_of_get hx]
+        simp only [List.nil_append, List.flatMap_append, List.mem_append]
+        exact Or.inr (by simpa using hr)
+      obtain ⟨u', hrun, hmem, hregs⟩ := C.hE x info _ _ _ s u s' hi hgi hex hused hknow hall hR.mem
         (fun r hr => hagree r (topRegs_sub_regsOf x r hr)) he
       -- embed the straight run
       obtain ⟨pre, post, h1, h2⟩ := code_at (cfg := cfg) (S := S) C.hpad pc hp'
